@@ -113,6 +113,9 @@ def shard(method, seed, tier, sweep=False):
             sh.violation('C14-read-returned-more-than-asked:' + tag, 'schedule %s declared %d' % (c.sched[:10], n), c.stream)
         if r.apiv & 4 or r.total > n:
             sh.violation('C14-exceeds-declared:' + tag, 'returned %d bytes for declared length %d (schedule %s)' % (r.total, n, c.sched[:10]), c.stream)
+        if r.apiv & 16:
+            sh.violation('C14-accessors-mid-stream:' + tag, 'after some read of schedule %s (declared %d) get_crc / get_length did not describe exactly the bytes returned so far'
+                         % (c.sched[:10], n), c.stream)
         if r.apiv & 8:
             sh.violation('C14-zero-read-changed-state:' + tag, 'a zero-length read changed reported length/CRC (schedule %s)' % c.sched[:10], c.stream)
         if r.len_rep != r.total:
